@@ -113,7 +113,7 @@ Proof.
   (* prefix entry *)
   destruct (lmax (t_prefixes t) =? 0) eqn:Ep0.
   - (* prefix table disabled: the whole IRI is the name *)
-    apply N.eqb_eq in Ep0. destruct Jp as [[_ [Hlr0 Hemp0]]|[Hinv _]]; [|destruct Hinv as [Hpos _ _ _ _ _ _ _ _ _]; unfold lmax in Ep0; cbn in Hpos; lia].
+    apply N.eqb_eq in Ep0. destruct Jp as [[_ [Hlr0 Hemp0]]|[Hinv _]]; [|destruct Hinv as [[Hpos _ _ _ _ _ _ _ _ _] _]; unfold lmax in Ep0; cbn in Hpos; lia].
     destruct (entry_index (t_names t) (t_nkeys t) iri) as [[[nms nkeys] ne]|e] eqn:En; [|discriminate].
     destruct (entry_index_spec _ _ _ _ _ _ _ _ Jn Jwn En) as (Hent & Wn1 & Hkeys & Hst & Hmax & Hlr).
     unfold encode_prefix_term_index. replace (l_max (e_lookup (t_prefixes t)) =? 0) with true by (symmetry; apply N.eqb_eq; exact Ep0).
